@@ -190,7 +190,7 @@ Section Proofs.
   Definition rauth_of (req : val) : option bytes :=
     if has_creds req then req_auth_fn T (req_auth_val req) else None.
   (* a request is processed iff it is consistent and, if it carries credentials, they are accepted by a configured callback *)
-  Definition admitted (c : cfg) (req : val) : bool :=
+  Definition cleared (c : cfg) (req : val) : bool :=
     count_ok req && negb (is_async req) &&
     (negb (has_creds req) || (c_req_auth c && match req_auth_fn T (req_auth_val req) with Some _ => true | None => false end)).
 
@@ -208,7 +208,7 @@ Section Proofs.
 
   Lemma handle_batch_spec c req script :
     let '(evs, oresp, script') := handle_batch T K c req script in
-    if admitted c req then
+    if cleared c req then
       evs = (if has_creds req then [EReqAuth (req_auth_val req) true] else []) ++ calls c (rauth_of req) (req_items req) /\
       oresp = Some (build_response c req
                 (map (fun p => response_item T K (fst p) (snd p))
@@ -217,7 +217,7 @@ Section Proofs.
       oresp = None /\ script' = script /\
       (evs = [] \/ evs = [EReqAuth (req_auth_val req) false]).
   Proof.
-    unfold handle_batch, admitted.
+    unfold handle_batch, cleared.
     fold (req_header req). fold (req_items req). fold (count_ok req). fold (req_auth_val req). fold (has_creds req).
     destruct (count_ok req); cbn [negb andb]; [|auto].
     unfold is_async. destruct (get_field T (req_header req) "AsynchronousIndicator") as [| | |[|]| | | | | | | | |];
@@ -247,11 +247,11 @@ Section Proofs.
       step_result c st script (arm_r c ++ [EClose k]) None
   | SR_rejected tag fl req n st' evs k :
       request_top T = Some (tag, fl) -> dec_top "Request" tag fl st = Ok (req, n, st') ->
-      admitted c req = false -> (evs = [] \/ evs = [EReqAuth (req_auth_val req) false]) ->
+      cleared c req = false -> (evs = [] \/ evs = [EReqAuth (req_auth_val req) false]) ->
       step_result c st script (arm_r c ++ evs ++ [EClose k]) None
   | SR_unencodable tag fl req n st' ritems k :
       request_top T = Some (tag, fl) -> dec_top "Request" tag fl st = Ok (req, n, st') ->
-      admitted c req = true ->
+      cleared c req = true ->
       ritems = map (fun p => response_item T K (fst p) (snd p)) (combine (req_items req) (outcomes c (req_items req) script)) ->
       enc_top T (VPtr (build_response c req ritems)) = None ->
       step_result c st script
@@ -259,7 +259,7 @@ Section Proofs.
                ++ arm_w c ++ [EEncodeFailed; EClose k]) None
   | SR_answered tag fl req n st' ritems b script' :
       request_top T = Some (tag, fl) -> dec_top "Request" tag fl st = Ok (req, n, st') ->
-      admitted c req = true ->
+      cleared c req = true ->
       ritems = map (fun p => response_item T K (fst p) (snd p)) (combine (req_items req) (outcomes c (req_items req) script)) ->
       enc_top T (VPtr (build_response c req ritems)) = Some b ->
       step_result c st script
@@ -277,7 +277,7 @@ Section Proofs.
     2:{ exfalso. exact (dec_top_total _ _ _ _ Hdec). }
     pose proof (handle_batch_spec c req script) as Hb.
     destruct (handle_batch T K c req script) as [[evs oresp] script'].
-    destruct (admitted c req) eqn:Hadm.
+    destruct (cleared c req) eqn:Hadm.
     - destruct Hb as [-> ->]. fold (arm_w c).
       destruct (enc_top T (VPtr (build_response c req _))) as [b|] eqn:Henc.
       + eapply SR_answered; eauto.
@@ -289,7 +289,7 @@ Section Proofs.
   (* whole traces                                                       *)
   (* ------------------------------------------------------------------ *)
   Definition is_close (e : event) : bool := match e with EClose _ => true | _ => false end.
-  (* events that belong to the processing of one admitted request *)
+  (* events that belong to the processing of one cleared request *)
   Definition req_event (c : cfg) (e : event) : Prop :=
     match e with
     | EReqAuth _ _ => True
